@@ -35,6 +35,9 @@ THEOREMS = [
     "C10.added_constraint_counterexample",
     "C10.added_constraint_partial",
     "C10.kept_constraints",
+    "C10.kept_textual_check",
+    "C10.evalPredCol_non_text",
+    "C10.evalPredCol_null",
     "C10.kept_primary_key",
     "C10.kept_indexes",
 ]
